@@ -3,7 +3,7 @@
 use std::collections::{BTreeMap, BTreeSet};
 use std::time::Duration;
 
-use alpenglow::consensus::Cert;
+use alpenglow::consensus::{Cert, Pool};
 use rayon::prelude::*;
 use serde_json::{Value, json};
 
@@ -255,18 +255,42 @@ pub fn scenarios(tier: Tier) -> Vec<Scenario> {
 /// E1 part: every schedule prefix of a small cluster of real node cores (bounded depth, with a
 /// noisy Byzantine validator), each completed fairly; the window must end decided at every node.
 fn run_liveness_prefixes(report: &Report, tier: Tier) -> Value {
-    use crate::cluster::{ClusterAlphabet, ClusterSys, LiveSys};
+    use crate::cluster::{ClusterAlphabet, ClusterSys, LiveSys, PrefixOp};
     use crate::common::make_epoch;
     use crate::engine::{BfsLimits, bfs};
     use crate::pooldrv::{Blk, CK, VK, VoteSpec};
     use std::sync::Arc;
     let g = Blk { slot: 0, idx: 0 };
     let b = |s, i| Blk { slot: s, idx: i };
-    let byz_votes = |byz: usize, kinds: &[(VK, u8)]| -> Vec<VoteSpec> { kinds.iter().map(|(k, blk)| VoteSpec { kind: *k, slot: 1, blk: *blk, signer: byz }).collect() };
+    let byz_votes_at = |byz: usize, slot: u64, kinds: &[(VK, u8)]| -> Vec<VoteSpec> { kinds.iter().map(|(k, blk)| VoteSpec { kind: *k, slot, blk: *blk, signer: byz }).collect() };
+    let byz_votes = |byz: usize, kinds: &[(VK, u8)]| byz_votes_at(byz, 1, kinds);
     let full = [(VK::Notar, 0u8), (VK::Notar, 1), (VK::Skip, 0), (VK::NotarFb, 0), (VK::SkipFb, 0)];
     let k4 = Arc::new(make_epoch(&[19, 27, 27, 27]));
     let k5 = Arc::new(make_epoch(&[21, 21, 21, 19, 18]));
+    // second window: window 0 ran normally (block of slot 1 fast-finalized, slots 2-3 skipped), the
+    // Byzantine validator leads window 1 and equivocates in slot 4 on top of the ready parent
+    let k4b = Arc::new(make_epoch(&[27, 19, 27, 27]));
+    let mut second = ClusterSys::new(
+        "K4-second-window-byzantine-leader",
+        k4b.clone(),
+        vec![0, 2, 3],
+        1,
+        ClusterAlphabet {
+            byz_votes: byz_votes_at(1, 4, &[(VK::Skip, 0), (VK::Notar, 0), (VK::Notar, 1)]),
+            forge: vec![],
+            blocks: vec![(b(1, 0), g), (b(4, 0), b(1, 0)), (b(4, 1), b(1, 0))],
+            invalid: vec![],
+            windows: vec![4],
+        },
+    );
+    second.max_msgs = 48;
+    second.prefix = vec![PrefixOp::BlockToAll(0), PrefixOp::DeliverAll];
+    for _ in 0..5 {
+        second.prefix.push(PrefixOp::TimersOnce(0));
+        second.prefix.push(PrefixOp::DeliverAll);
+    }
     let systems = vec![
+        second,
         ClusterSys::new(
             "K4-byzantine-leader-equivocates-small-noise",
             k4.clone(),
@@ -300,6 +324,9 @@ fn run_liveness_prefixes(report: &Report, tier: Tier) -> Value {
             println!("step {}", sys.describe(a));
             let _ = sys.step(&mut w, a, false);
         }
+        for (n, e) in w.emitted.iter().enumerate() {
+            println!("before completion node v{} emitted {} msgs, timers {:?}, finalized {:?}, ready(4) {:?}", sys.nodes[n], e.len(), w.cores[n].timers, w.cores[n].pool.pool.finalized_slot(), w.cores[n].pool.pool.parents_ready(alpenglow::types::Slot::new(4)).len());
+        }
         let rounds = sys.fair_completion(&mut w, std::env::var("C02_TIMEOUTS_FIRST").is_ok());
         println!("rounds {rounds}");
         for (n, e) in w.emitted.iter().enumerate() {
@@ -311,14 +338,14 @@ fn run_liveness_prefixes(report: &Report, tier: Tier) -> Value {
         }
         std::process::exit(0);
     }
-    let depths = [tier.pick(4, 8), tier.pick(3, 7), tier.pick(4, 7)];
+    let depths = [tier.pick(3, 8), tier.pick(4, 8), tier.pick(2, 7), tier.pick(3, 7)];
     let mut per = Vec::new();
     for (inner, depth) in systems.into_iter().zip(depths) {
         let name = inner.name.clone();
         let stakes = inner.epoch.stakes.clone();
         let nodes = inner.nodes.clone();
         let sys = LiveSys::new(inner);
-        let limits = BfsLimits::new(depth, tier.pick(1_000_000, 20_000_000), tier.pick(40, 300));
+        let limits = BfsLimits::new(depth, tier.pick(1_000_000, 20_000_000), tier.pick(40, 200));
         let st = bfs(&sys, &name, &limits, report);
         let completions = sys.completions.load(std::sync::atomic::Ordering::Relaxed);
         let shapes: Vec<String> = sys.shapes.lock().unwrap().iter().cloned().collect();
